@@ -42,9 +42,20 @@ instance (p : Pkg) (n : Text) : Decidable (Carries p n) := by unfold Carries; in
 def PSideB1 (c : Cfg) (S : List Pkg) : Prop :=
   C02.IdsDistinct c.u ∧ hypNames S ∧ hypPv S ∧ hypDepPv S ∧ (∀ q ∈ S, q.name ∈ c.order)
 def hypNoConfName (S : List Pkg) : Prop :=
-  ∀ p ∈ S, ∀ d ∈ p.deps, isConflict d = true → ∀ q ∈ S, ¬ Carries q (parseConstraint (d.drop 1)).name
+  ∀ p ∈ S, ∀ d ∈ p.deps, isConflict d = true → ∀ q ∈ S, Carries q (parseConstraint (d.drop 1)).name →
+    acceptsOne [] (parseConstraint (d.drop 1)).version (parseConstraint (d.drop 1)).dep []
+      (parseConstraint (d.drop 1)).pin none q = false
 def hypB (c : Cfg) (S : List Pkg) : Prop :=
-  ∀ x ∈ c.u.all, ∀ pr ∈ x.provides, ∀ p ∈ S, provName pr = p.name → x.name = p.name ∧ x ∉ S
+  ∀ x ∈ c.u.all, ∀ pr ∈ x.provides, ∀ p ∈ S, provName pr = p.name → x.name = p.name
+def hypSelf (S : List Pkg) : Prop := ∀ m ∈ S, ∀ pr ∈ m.provides, provName pr ≠ m.name
+def hypD (S : List Pkg) : Prop :=
+  ∀ m ∈ S, m.provides.Pairwise (fun a b => (parseConstraint a).version ≠ [] → provName a ≠ provName b)
+def hypV (S : List Pkg) : Prop :=
+  ∀ m1 ∈ S, ∀ m2 ∈ S, m1 ≠ m2 → ∀ pr1 ∈ m1.provides, ∀ pr2 ∈ m2.provides, provName pr1 = provName pr2 →
+    (parseConstraint pr1).version = [] ∧ (parseConstraint pr2).version = []
+instance (S : List Pkg) : Decidable (hypSelf S) := by unfold hypSelf; infer_instance
+instance (S : List Pkg) : Decidable (hypD S) := by unfold hypD; infer_instance
+instance (S : List Pkg) : Decidable (hypV S) := by unfold hypV; infer_instance
 def hypH (S : List Pkg) : Prop :=
   ∀ p ∈ S, ∀ d ∈ p.deps, isConflict d = false → (parseConstraint d).version ≠ [] →
     ∀ q ∈ S, ∀ pr ∈ q.provides, provName pr = (parseConstraint d).name → (parseConstraint pr).version = []
@@ -52,17 +63,14 @@ instance (S : List Pkg) : Decidable (hypNoConfName S) := by unfold hypNoConfName
 instance (c : Cfg) (S : List Pkg) : Decidable (hypB c S) := by unfold hypB; infer_instance
 instance (S : List Pkg) : Decidable (hypH S) := by unfold hypH; infer_instance
 def PSideB2 (c : Cfg) (S : List Pkg) : Prop := hypNoConfName S ∧ hypB c S ∧ hypH S
-def PSideB3 (S : List Pkg) : Prop :=
-  (∀ m1 ∈ S, ∀ m2 ∈ S, m1 ≠ m2 → ∀ pr1 ∈ m1.provides, ∀ pr2 ∈ m2.provides, provName pr1 = provName pr2 →
-    (parseConstraint pr1).version = [] ∧ (parseConstraint pr2).version = []) ∧
-  (∀ m ∈ S, (m.provides.map provName).Pairwise (· ≠ ·))
+def PSideB3 (S : List Pkg) : Prop := hypSelf S ∧ hypV S ∧ hypD S
 
 instance (c : Cfg) (S : List Pkg) : Decidable (PSideB1 c S) := by unfold PSideB1; infer_instance
 instance (c : Cfg) (S : List Pkg) : Decidable (PSideB2 c S) := by unfold PSideB2; infer_instance
 instance (S : List Pkg) : Decidable (PSideB3 S) := by unfold PSideB3; infer_instance
 
 theorem pside_of {c : Cfg} {S : List Pkg} (h1 : PSideB1 c S) (h2 : PSideB2 c S) (h3 : PSideB3 S) : PSide c S :=
-  ⟨h1.1, h1.2.1, h1.2.2.1, h1.2.2.2.1, h1.2.2.2.2, h2.1, h2.2.1, h2.2.2, h3.1, h3.2⟩
+  ⟨h1.1, h1.2.1, h1.2.2.1, h1.2.2.2.1, h1.2.2.2.2, h2.1, h2.2.1, h3.1, h2.2.2, h3.2.1, h3.2.2⟩
 
 def PCtxB (c : Cfg) (S : List Pkg) : Prop :=
   (∀ q ∈ c.u.all, q.installIf = []) ∧ (∀ p ∈ S, p ∈ c.u.all) ∧
@@ -158,6 +166,77 @@ theorem F09h_needed :
   ⟨by decide, by decide, by decide, pctx_of (by decide), by decide, strongLock_of (by decide), by decide, by decide,
     by decide, by decide, by decide, by decide⟩
 
+def m9a := pv9 0 "a" "1" ["b"] ["a=1"]
+def m9b := pv9 1 "b" "1" ["c"] []
+def m9c := pv9 2 "c" "1" [] []
+def cfg9m : Cfg := mkCfg [⟨[], "r-".toList, [m9a, m9b, m9c]⟩]
+def lock9m : List Text := ["a=1".toList, "b=1".toList, "c=1".toList]
+
+set_option maxRecDepth 100000 in
+/-- `hself` (not F09m) is needed: a provides its own name.  `[b, a]` resolves to the valid set {c, b, a}: b is visited
+first and selected, a's dependency on b takes the `selected` shortcut, `pick(a)` never runs.  In the lock's order a comes
+first, its dependency needs a candidate search, `pick(a)` runs and finds the name `a` taken — by a itself. -/
+theorem F09m_self_needed :
+    installOf (resolve cfg9m ["b".toList, "a".toList] []) = some [m9c, m9b, m9a] ∧
+    validB cfg9m.u ["b".toList, "a".toList] [m9c, m9b, m9a] = true ∧
+    relockClass cfg9m.u ["b".toList, "a".toList] [m9c, m9b, m9a] = "F09m" ∧
+    PCtx cfg9m [m9c, m9b, m9a] ∧ hypUniq cfg9m [m9c, m9b, m9a] ∧ StrongLock [m9c, m9b, m9a] lock9m ∧
+    PSideB1 cfg9m [m9c, m9b, m9a] ∧ PSideB2 cfg9m [m9c, m9b, m9a] ∧ hypV [m9c, m9b, m9a] ∧ hypD [m9c, m9b, m9a] ∧
+    ¬ hypSelf [m9c, m9b, m9a] ∧ installOf (resolve cfg9m lock9m []) = none :=
+  ⟨by decide, by decide, by decide, pctx_of (by decide), by decide, strongLock_of (by decide), by decide, by decide,
+    by decide, by decide, by decide, by decide⟩
+
+def t9a := pv9 0 "a" "1" ["b"] ["v=1", "v=2"]
+def cfg9t : Cfg := mkCfg [⟨[], "r-".toList, [t9a, m9b, m9c]⟩]
+
+set_option maxRecDepth 100000 in
+/-- `hd` (not F09m) is needed: a provides `v=1` and `v=2`; same orders as above, `pick(a)` finds `v` taken by a itself -/
+theorem F09m_twice_needed :
+    installOf (resolve cfg9t ["b".toList, "a".toList] []) = some [m9c, m9b, t9a] ∧
+    validB cfg9t.u ["b".toList, "a".toList] [m9c, m9b, t9a] = true ∧
+    relockClass cfg9t.u ["b".toList, "a".toList] [m9c, m9b, t9a] = "F09m" ∧
+    PCtx cfg9t [m9c, m9b, t9a] ∧ hypUniq cfg9t [m9c, m9b, t9a] ∧ StrongLock [m9c, m9b, t9a] lock9m ∧
+    PSideB1 cfg9t [m9c, m9b, t9a] ∧ PSideB2 cfg9t [m9c, m9b, t9a] ∧ hypV [m9c, m9b, t9a] ∧ hypSelf [m9c, m9b, t9a] ∧
+    ¬ hypD [m9c, m9b, t9a] ∧ installOf (resolve cfg9t lock9m []) = none :=
+  ⟨by decide, by decide, by decide, pctx_of (by decide), by decide, strongLock_of (by decide), by decide, by decide,
+    by decide, by decide, by decide, by decide⟩
+
+def n9a := pv9 0 "a" "1" ["!v>=2"] []
+def n9m := pv9 1 "m" "3" [] ["v=1"]
+def cfg9n : Cfg := mkCfg [⟨[], "r-".toList, [n9a, n9m]⟩]
+def lock9n : List Text := ["a=1".toList, "m=3".toList]
+
+set_option maxRecDepth 100000 in
+/-- `noConf` in its loose form (not F09n) is needed: a says `!v>=2`, m-3 provides `v=1`.  No member satisfies `v>=2`
+(`conflictViolated` is false, the original is valid), but `disqualifyProviders` tests m's OWN version 3 against `>=2`
+for the provided name and disqualifies m.  `[m, a]` resolves (m is picked before a's conflict is applied); in the lock's
+order a comes first and `m=3` has no candidate left. -/
+theorem F09n_needed :
+    installOf (resolve cfg9n ["m".toList, "a".toList] []) = some [n9m, n9a] ∧
+    validB cfg9n.u ["m".toList, "a".toList] [n9m, n9a] = true ∧
+    conflictViolated ["m".toList, "a".toList] [n9m, n9a] = false ∧
+    relockClass cfg9n.u ["m".toList, "a".toList] [n9m, n9a] = "F09n" ∧
+    PCtx cfg9n [n9m, n9a] ∧ hypUniq cfg9n [n9m, n9a] ∧ StrongLock [n9m, n9a] lock9n ∧
+    PSideB1 cfg9n [n9m, n9a] ∧ hypB cfg9n [n9m, n9a] ∧ hypH [n9m, n9a] ∧ PSideB3 [n9m, n9a] ∧
+    ¬ hypNoConfName [n9m, n9a] ∧ installOf (resolve cfg9n lock9n []) = none :=
+  ⟨by decide, by decide, by decide, by decide, pctx_of (by decide), by decide, strongLock_of (by decide), by decide,
+    by decide, by decide, by decide, by decide, by decide⟩
+
+theorem provTwice_false : ∀ (l : List Text), provTwice l = false →
+    l.Pairwise (fun a b => (parseConstraint a).version ≠ [] → provName a ≠ provName b) := by
+  intro l
+  induction l with
+  | nil => intro _; exact List.Pairwise.nil
+  | cons a rest ih =>
+    intro h
+    simp only [provTwice, Bool.or_eq_false_iff, Bool.and_eq_false_iff, Bool.not_eq_false', List.isEmpty_iff,
+      List.any_eq_false, decide_eq_true_eq] at h
+    refine List.Pairwise.cons ?_ (ih h.2)
+    intro b hb hv he
+    rcases h.1 with h1 | h1
+    · exact hv h1
+    · exact h1 b hb he.symm
+
 /-- a dependency with a real operator that some package satisfies has a version text that parses -/
 theorem sat_dep_parses {q : Pkg} {d : Text} (hsat : sat q d = true) (hany : (parseConstraint d).dep ≠ .any)
     (hve : (parseConstraint d).version ≠ []) : ∃ v, pv (parseConstraint d).version = some v := by
@@ -187,18 +266,18 @@ theorem sat_dep_parses {q : Pkg} {d : Text} (hsat : sat q d = true) (hany : (par
 ANY universe with distinct ids — provides included — whose class is `unlisted` (no pin lost, valid original without
 violated conflict, parsable versions, nobody provides a member's name, no versioned dependency on a provided name,
 no install_if, unique (name, version), no junk version text), the lock `unify` emits re-resolves to exactly
-`r.install`, PROVIDED the four conditions the classifier does not look at hold:
-`hnoconf` (a `!x` dependency names nothing a member carries, also not by a provide), `hself` (no member provides its
-own name), `hv3` (two members provide one name only without versions; no member provides a name twice) and `horder`
-(the provider order knows the members; true for the driver's `ownNames`).  What separates this from
-`RelockClassesComplete` are exactly these named conditions: either each is implied by "the original resolution
-succeeded" (then the classifier is complete) or it is one more finding class — open; the provides families of the
-suite search for the second alternative on every run. -/
+`r.install`, PROVIDED `hv` (two different members provide one name only without versions) and `horder` (the provider
+order knows the members; true for the driver's `ownNames`).  The class list this theorem is stated for includes F09l,
+F09m (a member provides its own name, or a name twice) and F09n (a `!x` dependency reaches a member through the loose
+candidate filter of `disqualifyProviders`): all three were found as unprovable cases of this theorem and replayed on
+the real code.  What separates it from `RelockClassesComplete` is `hv` alone: either "the original resolution
+succeeded" implies it (picking a provider disqualifies every other versioned provider of the name, in both
+directions) — then the classifier is complete — or it is one more finding class; open, and searched by the provides
+families of the suite on every run. -/
 theorem relock_unlisted_exact_provides_partial (c : Cfg) (w : List Text) (dq0 : List Nat) (r : Resolution)
     (hres : resolve c w dq0 = .ok r) (hids : C02.IdsDistinct c.u)
     (hread : EntriesReadBack w r.install) (horder : ∀ q ∈ r.install, q.name ∈ c.order)
-    (hnoconf : hypNoConfName r.install) (hself : ∀ p ∈ r.install, ∀ pr ∈ p.provides, provName pr ≠ p.name)
-    (hv3 : PSideB3 r.install)
+    (hv : hypV r.install)
     (hcls : relockClass c.u w r.install = "unlisted") :
     ∃ r', resolve c (lockOf w r.install) [] = .ok r' ∧ sameMembers r'.install r.install := by
   unfold relockClass at hcls
@@ -218,12 +297,54 @@ theorem relock_unlisted_exact_provides_partial (c : Cfg) (w : List Text) (dq0 : 
   next hdup =>
   split at hcls; · exact absurd hcls (by decide)
   next hjunk =>
+  split at hcls; · exact absurd hcls (by decide)
+  next hselfc =>
+  split at hcls; · exact absurd hcls (by decide)
+  next hhits =>
   simp only [invalidOriginal, Bool.or_eq_true, Bool.not_eq_true', not_or, Bool.not_eq_true] at hinv
   obtain ⟨hvalid, _⟩ := hinv
   have hvalid2 : validB c.u w r.install = true := by
-    cases hv : validB c.u w r.install with
+    cases hvb : validB c.u w r.install with
     | true => rfl
-    | false => rw [hv] at hvalid; exact absurd rfl hvalid
+    | false => rw [hvb] at hvalid; exact absurd rfl hvalid
+  have hself : hypSelf r.install := by
+    intro m hm pr hpr hn
+    apply hselfc
+    unfold selfConflictingProvides
+    rw [List.any_eq_true]; refine ⟨m, hm, ?_⟩
+    simp only [Bool.or_eq_true, List.any_eq_true, decide_eq_true_eq]
+    exact Or.inl ⟨pr, hpr, hn⟩
+  have hd : hypD r.install := by
+    intro m hm
+    apply provTwice_false
+    cases hpt : provTwice m.provides with
+    | false => rfl
+    | true =>
+      exfalso
+      apply hselfc
+      unfold selfConflictingProvides
+      rw [List.any_eq_true]; refine ⟨m, hm, ?_⟩
+      simp [hpt]
+  have hnoconf : hypNoConfName r.install := by
+    intro p hp d hd2 hc q hq hcar
+    unfold isConflict at hc
+    split at hc
+    · next x =>
+      cases hacc : acceptsOne [] (parseConstraint (List.drop 1 ('!' :: x))).version
+          (parseConstraint (List.drop 1 ('!' :: x))).dep [] (parseConstraint (List.drop 1 ('!' :: x))).pin none q with
+      | false => rfl
+      | true =>
+        exfalso
+        apply hhits
+        unfold conflictHitsMember
+        rw [List.any_eq_true]; refine ⟨p, hp, ?_⟩
+        rw [List.any_eq_true]; refine ⟨_, hd2, ?_⟩
+        simp only
+        rw [List.any_eq_true]; refine ⟨q, hq, ?_⟩
+        simp only [List.drop_succ_cons, List.drop_zero] at hacc hcar
+        simp only [Bool.and_eq_true, Bool.or_eq_true, decide_eq_true_eq, List.any_eq_true, hacc, and_true]
+        exact hcar
+    · cases hc
   obtain ⟨_, hclosed, hpw, _⟩ := (C02.validB_iff c.u w r.install).mp hvalid2
   have hsub := C02.resolve_subset c w dq0 r hres
   have hnames := names_of_pairwise hpw
@@ -245,10 +366,7 @@ theorem relock_unlisted_exact_provides_partial (c : Cfg) (w : List Text) (dq0 : 
       rw [List.any_eq_true]; refine ⟨p, hp, ?_⟩
       simp only [Bool.and_eq_true, decide_eq_true_eq, bne_iff_ne, ne_eq]
       exact ⟨hn.symm, fun e => hne e.symm⟩
-    refine ⟨hxn, fun hxs => ?_⟩
-    have : x = p := hnames x hxs p hp hxn
-    subst this
-    exact hself x hxs pr hpr hn
+    exact hxn
   have hh : hypH r.install := by
     intro p hp d hd hnc hve q hq pr hpr hn
     apply Classical.byContradiction
@@ -283,7 +401,7 @@ theorem relock_unlisted_exact_provides_partial (c : Cfg) (w : List Text) (dq0 : 
         obtain ⟨v, hv⟩ := sat_dep_parses hsat hany hve
         rw [hv]; rfl
   have sd : PSide c r.install := by
-    refine pside_of ⟨hids, hnames, ?_, hdep, horder⟩ ⟨hnoconf, hb, hh⟩ hv3
+    refine pside_of ⟨hids, hnames, ?_, hdep, horder⟩ ⟨hnoconf, hb, hh⟩ ⟨hself, hv, hd⟩
     intro p hp
     simp only [unparsableVersion, List.any_eq_true, not_exists, not_and, Bool.not_eq_true] at hpv
     have := hpv p hp
@@ -327,10 +445,9 @@ set_option maxRecDepth 100000 in
 /-- non-vacuity of `relock_unlisted_exact_provides_partial`: its hypotheses hold for the resolution `SV` of `[r, a, p]`
 in `cfgV` (two members provide `v0`, a versioned provide, a non-member competitor) -/
 example : installOf (resolve cfgV ["r".toList, "a".toList, "p".toList] []) = some SV ∧ C02.IdsDistinct cfgV.u ∧
-    EntriesReadBack ["r".toList, "a".toList, "p".toList] SV ∧ (∀ q ∈ SV, q.name ∈ cfgV.order) ∧ hypNoConfName SV ∧
-    (∀ p ∈ SV, ∀ pr ∈ p.provides, provName pr ≠ p.name) ∧ PSideB3 SV ∧
+    EntriesReadBack ["r".toList, "a".toList, "p".toList] SV ∧ (∀ q ∈ SV, q.name ∈ cfgV.order) ∧ hypV SV ∧
     relockClass cfgV.u ["r".toList, "a".toList, "p".toList] SV = "unlisted" := by
-  refine ⟨by decide, by decide, ?_, by decide, by decide, by decide, by decide, by decide⟩
+  refine ⟨by decide, by decide, ?_, by decide, by decide, by decide⟩
   intro p hp
   simp only [SV, List.mem_cons, List.not_mem_nil, or_false] at hp
   rcases hp with rfl | rfl | rfl | rfl <;> exact ⟨head_ne_bang_of (by decide), by decide⟩
